@@ -113,7 +113,7 @@ def settings_part(ck, report, dist, binp, tier, seed):
                     report("property-fails", sig("wrong-result"), det("f(%d) = %d expected %d; spin(1000) = %d" % (e["arg"], o["res"], e["want"], o["small"])))
                 if s["term"] == "1" and o["spin"] != "early":
                     report("property-fails", sig("termination-lost"), det("close-on-context-done is on, yet a long loop under a 5 ms deadline ended with: %s" % o["spin"]))
-                shape = [t[:2] for t in o.get("trace") or []]
+                shape = [t.split("[")[0] for t in o.get("trace") or []]
                 if shape != expected_trace_shape(o.get("lis"), e["nloc"]):
                     report("property-fails", sig("listener-events"), det("listener events %s do not match the functions the factory took (%s)" % (o.get("trace"), o.get("lis"))))
             if s["eng"] == "i":
